@@ -30,3 +30,16 @@ silent(P, "su2-rot-decomp-mod-8pi-through-local",
              "        total = (phi + omega) % (8 * np.pi)\n        ops.RZ(total, wires=wires[0])")])
 silent(P, "zyz-rotation-angles-omega-respelled",
        [(MD, "    omega = math.squeeze(omega % (4 * np.pi))\n", "    omega = math.squeeze(omega % (2 * (2 * np.pi)))\n")])
+
+# --- R-C10-powmod
+_NP = "pennylane/ops/qubit/non_parametric_ops.py"
+fire("C10", "pow-s-to-t-condition-uses-half-period",
+     (_NP, "@register_condition(lambda z, **_: math.shape(z) == () and math.allclose(z % 4, 0.5))\n@register_resources(lambda **_: {qp.T: 1})\ndef _pow_s_to_t",
+           "@register_condition(lambda z, **_: math.shape(z) == () and math.allclose(z % 2, 0.5))\n@register_resources(lambda **_: {qp.T: 1})\ndef _pow_s_to_t"),
+     "R-C10-powmod", "_pow_s_to_t")
+fire("C10", "pow-sx-body-reduces-modulo-two",
+     (_NP, "    z_mod4 = qp.math.array(z) % 4\n    qp.RX(", "    z_mod4 = qp.math.array(z) % 2\n    qp.RX("),
+     "R-C10-powmod", "_pow_sx")
+silent("C10", "pow-z-to-s-condition-uses-double-period",
+       [(_NP, "@register_condition(lambda z, **_: math.shape(z) == () and math.allclose(z % 2, 0.5))\n@register_resources(lambda **_: {qp.S: 1})",
+              "@register_condition(lambda z, **_: math.shape(z) == () and (math.allclose(z % 4, 0.5) or math.allclose(z % 4, 2.5)))\n@register_resources(lambda **_: {qp.S: 1})")])
